@@ -32,6 +32,7 @@ Inductive exch :=
      (reads : list (bytes * rstat))    (* what the caller got from resp.Body *)
 | X2 (fields : list field) (body : option (list bytes))
      (fin_last : bool)                 (* the last DATA frame with payload carried END_STREAM *)
+     (aborted : bool)                  (* the client never ended the stream (upload abandoned) *)
      (resp_fields : list field) (reads : list (bytes * rstat))
 | X3 (fields : list field) (body : option (list bytes))
      (resp_fields : list field) (reads : list (bytes * rstat)).
@@ -63,12 +64,16 @@ Definition exch_log (ds : list dumper) (x : exch) : bool * log :=
       let '(rr, l3) := h1_recv ds n rest script_reader reads (map (fun _ => 0) reads) in
       (bytes_eqb (sr_state sr) wire && negb (sr_failed sr),
        lh ++ lpre ++ skipn (length lh) l1 ++ l2 ++ l3)
-  | X2 fs body fin rfs reads =>
-      let '(sr, l1) := h2_send ds no_enc id_frame id_frame [] app_w [] (mkH23Req fs body fin) in
-      let '(_, l2) := h23_recv ds rfs script_reader reads (map (fun _ => 0) reads) in
-      (negb (sr_failed sr), l1 ++ l2)
+  | X2 fs body fin aborted rfs reads =>
+      let '(sr, l1) := h2_send ds no_enc id_frame id_frame [] app_w [] (mkH23Req fs body fin aborted) in
+      (* no response header block at all (stream reset): nothing is read *)
+      let l2 := match rfs with
+                | [] => []
+                | _ => snd (h23_recv ds rfs script_reader reads (map (fun _ => 0) reads))
+                end in
+      (Bool.eqb (sr_failed sr) (aborted && negb fin), l1 ++ l2)
   | X3 fs body rfs reads =>
-      let '(sr, l1) := h3_send ds no_enc app_w [] (mkH23Req fs body false) in
+      let '(sr, l1) := h3_send ds no_enc app_w [] (mkH23Req fs body false false) in
       let '(_, l2) := h23_recv ds rfs script_reader reads (map (fun _ => 0) reads) in
       (negb (sr_failed sr), l1 ++ l2)
   end.
